@@ -19,6 +19,7 @@
 #define VF_INPUTS(X) X(unsigned char, kind, [NN]) X(unsigned char, nk, [NN]) X(unsigned char, key, [NN][TS + 1]) X(unsigned char, ptr, [P + 1]) X(unsigned char, target, ) \
     X(unsigned char, g_text, [2][26]) X(double, g_val, ) X(double, strtod_val, ) X(unsigned char, dp, )
 #include "vf.h"
+#include "vf_str.h"
 #define VF_MODEL_PRINTF
 #include "vf_libc.h"
 #include "vf_mem.h"
